@@ -16,7 +16,7 @@ def obligations(tier):
                         bounds="buffer length <= %d, all byte values, all declared lengths 0..2^64-1" % maxn,
                         sample={"buffer": "n<=%d symbolic bytes" % maxn}))
     if tier == "thorough":
-        for be in ("cadical", "z3"):
+        for be in ("cadical",):
             obls.append(Obl("stream_decode_all_buffers_le12_dbg_%s" % be, "h_stream.c", {"MAXN": 12}, variant="dbg",
                             unwind=14, timeout=1800, funcs=FUNCS, backend=be,
                             desc="same query cross-checked on back end %s" % be, bounds="buffer length <= 12"))
@@ -28,7 +28,7 @@ META = dict(
     functions=FUNCS,
     exhaustive=True,
     bounds={"quick": "all buffers of length 0..12 (complete for every head form; string payload presence up to 3 bytes; every declared length 0..2^64-1)",
-            "thorough": "all buffers of length 0..16, plus length<=12 re-decided on CaDiCaL and z3"},
+            "thorough": "all buffers of length 0..16, plus length<=12 re-decided on CaDiCaL (z3 gives no verdict in 1800 s)"},
     assumptions=["CBMC LP64 little-endian model", "ldexp model (models.c), exact for the only call sites",
                  "allocator pointers replaced via cbor_set_allocs by functions that assert(0) (allocates-nothing clause); direct libc calls are covered by C13's census"],
     outside=["buffers longer than the bound: only the payload length differs, payload bytes are never read by the decoder",
